@@ -67,6 +67,9 @@ def main():
             r = sh(f"cd {sd} && PYTHONPATH={tree} timeout 600 /venv/bin/python equiv.py")
             res["equiv_clean"] = {"exit": r.returncode, "out": r.stdout[-400:]}
         r = sh(f"git -C {tree} apply {sd / 'patch.diff'}")
+        if r.returncode != 0:        # /repo has moved on since the patch was made (later fix: commits): try a 3-way merge
+            r = sh(f"git -C {tree} apply --3way {sd / 'patch.diff'}")
+            res["applied_with_3way"] = r.returncode == 0
         assert r.returncode == 0, "patch does not apply: " + r.stderr
         if demo.exists():
             r = sh(f"cd {sd} && PYTHONPATH={tree} timeout 600 /venv/bin/python demo.py")
@@ -99,6 +102,14 @@ def main():
             sh(f"git -C /repo worktree remove --force {tree}")
             shutil.rmtree(tree, ignore_errors=True)
     res["detected_by"] = [p for p, c in res["checks"].items() if c["detected"]]
+    if a.skip_suite and (sd / "result.json").exists():      # keep what an earlier full evaluation recorded
+        try:
+            old = json.loads((sd / "result.json").read_text())
+            for k in ("suite_patched",):
+                if k in old and k not in res:
+                    res[k] = old[k]
+        except Exception:  # noqa
+            pass
     (sd / "result.json").write_text(json.dumps(res, indent=1) + "\n")
     print("detected by:", res["detected_by"] or "NONE")
 
